@@ -72,14 +72,14 @@ func classify(op string, a, b *big.Int) (classes []string, window bool) {
 // halfSpecial draws values around (n-1)/2 and the other boundaries of the
 // half-order test.
 func halfSpecial(t *rapid.T) *big.Int {
-	base := rapid.SampledFrom([]*big.Int{ref.HalfN, big.NewInt(0), new(big.Int).Sub(N, big.NewInt(1)), big.NewInt(1)}).Draw(t, "halfbase")
+	base := gen.Sampled([]*big.Int{ref.HalfN, big.NewInt(0), new(big.Int).Sub(N, big.NewInt(1)), big.NewInt(1)}).Draw(t, "halfbase")
 	off := big.NewInt(int64(rapid.IntRange(-3, 3).Draw(t, "halfoff")))
 	return ref.Mod(new(big.Int).Add(base, off), N)
 }
 
 func propOps(t *rapid.T) {
 	a, b, kind := gen.Pair(t, N, "p")
-	op := rapid.SampledFrom(opList).Draw(t, "op")
+	op := gen.Sampled(opList).Draw(t, "op")
 	alias := rapid.IntRange(0, 4).Draw(t, "alias")
 	ctrl := gen.Ctrl(t, "ctrl")
 	junk := gen.Int256(t, N, "junk")
@@ -232,7 +232,7 @@ func propOps(t *rapid.T) {
 func TestC02_Ops(t *testing.T) { rapid.Check(t, propOps) }
 
 func propCodec(t *rapid.T) {
-	which := rapid.SampledFrom([]string{"setbytes", "setcanonical", "newfrombytes", "newfromcanonical",
+	which := gen.Sampled([]string{"setbytes", "setcanonical", "newfrombytes", "newfromcanonical",
 		"bytes", "uint64", "zero-one"}).Draw(t, "which")
 	prev := gen.Int256(t, N, "prev")
 	sc := lib.Sc(prev)
